@@ -368,3 +368,72 @@ func H_Gov_Messages_KeepTotalCommitted() {
 	vrf.Assert(s.committed().Equal(s.a), "C12: a governance message of the commitment module leaves accounts' committed amounts alone")
 	s.checkCustody("governance message")
 }
+
+// A commit onto an account that already holds many lock-ups of the denom (an LP that joined an oracle pool again and
+// again without leaving): however long the lock-up list is, the committed amount and the locked amount grow by exactly
+// the committed amount and the chain-wide total follows.
+//
+//vrf:cover commit-ok
+//vrf:bound 1 account with 0, 1, 9, 10, 11 or 16 existing lock-ups of one share denom (one base unit each, all still running), symbolic committed amount above them; one commit of a symbolic amount with a symbolic lock time
+//vrf:unwind 40
+func H_Commit_ManyLockups() {
+	env := wire.New(wire.Opts{})
+	now := vrf.I64("now", 1, maxT)
+	env.Ctx = vrf.SetBlock(env.Ctx, 10, now)
+	ctx := env.Ctx
+	env.Aprof.SetEntry(ctx, aptypes.Entry{BaseDenom: share, Denom: share, Decimals: 18, CommitEnabled: true, WithdrawEnabled: true})
+	n := 0
+	switch vrf.I64("existingLockups", 0, 5) {
+	case 1:
+		n = 1
+	case 2:
+		n = 9
+	case 3:
+		n = 10
+	case 4:
+		n = 11
+	case 5:
+		n = 16
+	}
+	free := vrf.Int("unlockedPart")
+	vrf.Assume(!free.IsNegative())
+	a := free.Add(sdkmath.NewInt(int64(n)))
+	c := env.Comm.GetCommitments(ctx, alice)
+	if a.IsPositive() {
+		tok := &ctypes.CommittedTokens{Denom: share, Amount: a, Lockups: []ctypes.Lockup{}}
+		for i := 0; i < n; i++ {
+			tok.Lockups = append(tok.Lockups, ctypes.Lockup{Amount: sdkmath.NewInt(1), UnlockTimestamp: uint64(now) + uint64(100+i)})
+		}
+		c.CommittedTokens = []*ctypes.CommittedTokens{tok}
+	}
+	env.Comm.SetCommitments(ctx, c)
+	p := ctypes.DefaultParams()
+	if a.IsPositive() {
+		p.TotalCommitted = sdk.Coins{sdk.NewCoin(share, a)}
+	}
+	env.Comm.SetParams(ctx, p)
+	env.W.SetBal(commMod, share, a)
+	amt := vrf.Int("amt")
+	vrf.Assume(amt.IsPositive())
+	env.W.SetBal(alice, share, amt)
+	lockUntil := vrf.U64("lockUntil", 0, maxT)
+	if err := env.Comm.CommitLiquidTokens(ctx, alice, share, amt, lockUntil); err != nil {
+		return
+	}
+	vrf.Cover("commit-ok")
+	c2 := env.Comm.GetCommitments(ctx, alice)
+	vrf.Assert(c2.GetCommittedAmountForDenom(share).Equal(a.Add(amt)), "C12/C02 commit: the account's committed amount grows by exactly the committed amount, however many lock-ups it already holds")
+	locked := sdkmath.ZeroInt()
+	for _, l := range c2.GetCommittedLockUpsForDenom(share) {
+		if l.UnlockTimestamp > uint64(now) {
+			locked = locked.Add(l.Amount)
+		}
+	}
+	want := sdkmath.NewInt(int64(n))
+	if lockUntil > uint64(now) {
+		want = want.Add(amt)
+	}
+	vrf.Assert(locked.Equal(want), "C12 commit: the account's locked amount is the old lock-ups plus exactly the new one")
+	vrf.Assert(env.Comm.GetParams(ctx).TotalCommitted.AmountOf(share).Equal(a.Add(amt)), "C12/C02 commit: TotalCommitted == sum of committed amounts")
+	vrf.Assert(env.W.BalOf(commMod, share).Equal(a.Add(amt)), "C12/C02 commit: custody holds exactly the committed shares")
+}
